@@ -3,7 +3,6 @@ package eventbus
 import (
 	"encoding/json"
 	"fmt"
-	"reflect"
 	"sync"
 )
 
@@ -170,8 +169,9 @@ func RegisterUpcast[From any, To any](bus *EventBus, upcast func(From) To) error
 		return fmt.Errorf("eventbus: upcast function cannot be nil")
 	}
 
-	fromType := reflect.TypeOf((*From)(nil)).Elem().String()
-	toType := reflect.TypeOf((*To)(nil)).Elem().String()
+	// Use the same names under which events of these types are persisted
+	fromType := eventTypeNameOf[From]()
+	toType := eventTypeNameOf[To]()
 
 	upcastFunc := func(data json.RawMessage) (json.RawMessage, string, error) {
 		var from From
